@@ -137,8 +137,9 @@ def shards(tier):
     for kind in CIR_KINDS:
         out.append(("circuit loader", ("cir", kind)))
     out.append(("notations", ("notation",)))
-    for i in range(8):
-        out.append(("documents", ("doc", i, 8, tier)))
+    nd = 8 if tier == "quick" else 64
+    for i in range(nd):
+        out.append(("documents", ("doc", i, nd, tier)))
     return out
 
 
@@ -427,23 +428,23 @@ def run_notation(res):
 LEAVES = [complex(1.5, -2.0), 3.25, "txt", complex(1e-06, -2e+16), 1e-05]
 
 
-def trees(depth):
+def trees(depth, full=False):
     if depth == 0:
         return list(LEAVES)
-    sub = trees(depth - 1)
+    sub = trees(depth - 1, full)
     out = list(LEAVES)
     for x in sub:
         out.append({"a": x})
     for x, y in itertools.product(sub, repeat=2):
-        if depth >= 2 and not (isinstance(x, (complex, float, str)) or isinstance(y, (complex, float, str))):
-            continue     # keep depth-2 lists to at least one scalar item (size bound)
+        if not full and depth >= 2 and not (isinstance(x, (complex, float, str)) or isinstance(y, (complex, float, str))):
+            continue     # quick: keep depth-2 lists to at least one scalar item (size bound)
         out.append([x, y])
     return out
 
 
 def documents(tier):
     docs = []
-    for x in trees(2):
+    for x in trees(2, full=(tier == "thorough")):
         docs.append({"k": x, "other": 1.0})
     for x in trees(1):
         docs.append({"k": {"deep": {"deeper": x}}})
